@@ -10,7 +10,7 @@ ID = "C14"
 TITLE = "Loss kernels are the negative log-likelihoods they are named after"
 RULE = ("Hypothesis draws the loss class, n in 1..12 observations, p in 1..3 columns, y and predictions > 0 (integers for count data), "
         "a spread parameter (sigma, shape, k > 0) as scalar, per-observation array or the class default, weights (Square and Normal), and the "
-        "input layout: vector (n,), single-column prediction (n,1) against vector data (what the ODE loss passes for one observed state), or (n,p). "
+        "input layout: vector (n,), single-column prediction (n,1) against vector data (what the ODE loss passes for one observed state), a single-row prediction (1,n), or (n,p). "
         "Objects are built through the public classes. Oracle: loss == sum of reference negative log densities (mpmath, own formulas in mean "
         "parameterisation; Square == sum (w(y-yhat))^2), rtol 1e-10; diff_loss and diff2Loss with unit weights == first / second derivative of "
         "the reference w.r.t. each prediction (mpmath.diff, rtol 1e-8), with the output shaped like the data. "
@@ -35,7 +35,7 @@ def strategy(tier):
     @st.composite
     def case(draw):
         kind = draw(st.sampled_from(KINDS))
-        layout = draw(st.sampled_from(["vector", "vector", "column", "matrix"]))
+        layout = draw(st.sampled_from(["vector", "vector", "column", "matrix", "row"]))
         # (n,p) input needs n >= 2: a 1 x p array is indistinguishable from a vector for the kernels
         n = draw(st.integers(2 if layout == "matrix" else 1, 12))
         p = draw(st.integers(2, 3)) if layout == "matrix" else 1
@@ -78,6 +78,8 @@ def _shape(a, layout, what):
         return a
     if what == "yhat" and layout == "column":
         return a.reshape(-1, 1)
+    if what == "yhat" and layout == "row":
+        return a.reshape(1, -1)           # np.atleast_2d(yhat) / yhat[None, :]: the kernels flatten single rows too
     return a.reshape(-1)
 
 
